@@ -30,7 +30,7 @@
     C17_slice_attribute  `AttributeName` slices to the qualified name as written, `AttributeValue` to the
                          value text, which decodes (`parse_attribute`, ID-normalised for the name id of
                          xml:id) to the attribute node's value
-    C17_attribute_quotes the value span lies between two equal quote characters of the source
+                         (the value span lies between two equal quote characters of the source)
     C17_slice_comment, C17_slice_pi   body / target / content
     C17_slice_text       `Text` slices to the source of the run of text / CDATA tokens behind the node,
                          from inside the first part to inside the last (`runSlice`), and decoding that
@@ -308,7 +308,8 @@ theorem C17_slice_element {m : Mode} {env : Env} {s : Str} {p : Parsed} (h : par
 
 /-- C17_slice_attribute.  Every attribute child `(n, v)` of the element at `q` was made by an
     `Attribute` token: `AttributeName n` slices to its qualified name as written, `AttributeValue n`
-    to its value text `val`, `parse_attribute(val)` succeeds and — ID-normalised when `n` is the name
+    to its value text `val`, which is the text BETWEEN THE QUOTES (the source reads `qc val qc` there,
+    `qc` one of `"` `'`, and the span starts one byte after the first `qc`), `parse_attribute(val)` succeeds and — ID-normalised when `n` is the name
     id of xml:id (expanded name, whatever the prefix) — is the node's value; the local name is the
     name's, an attribute whose prefix has id 0 (the empty prefix) is in no namespace, any other
     prefix is bound to the name's namespace. -/
@@ -318,7 +319,8 @@ theorem C17_slice_attribute {m : Mode} {env : Env} {s : Str} {p : Parsed} (h : p
     ∃ pfx loc val wsp, Token.attribute pfx loc val wsp ∈ (lexMode m s).1 ∧
       (∃ sp, p.spans.get ⟨q, .attributeName n⟩ = some sp ∧
         sliceBytes s sp.start sp.stop = some (tokQName pfx.text loc.text)) ∧
-      (∃ sp, p.spans.get ⟨q, .attributeValue n⟩ = some sp ∧ sliceBytes s sp.start sp.stop = some val.text) ∧
+      (∃ sp, p.spans.get ⟨q, .attributeValue n⟩ = some sp ∧ sliceBytes s sp.start sp.stop = some val.text ∧
+        ∃ a b qc, (qc = '"' ∨ qc = '\'') ∧ s = a ++ qc :: (val.text ++ qc :: b) ∧ sp.start = strLen a + 1) ∧
       (∃ raw, parseAttribute val.text = .ok raw ∧
         v = if n == Env.xmlIdName then normalizeXmlId raw else raw) ∧
       pfx.text ∈ p.env.prefixes ∧
